@@ -14,6 +14,7 @@ fn any_cb() -> u32 {
 // @harness c15_l2_compressed_range
 // @props C15 C09 C14
 // @tier quick
+// @cost 4
 // @timeout 300
 // @desc L2Entry::compressed_range and L2Entry::allocation equal the spec's compressed-descriptor formulas (host offset, byte length up to the end of the last sector, set of host clusters touched incl. straddling) for EVERY 64-bit entry and every cluster size; no overflow or panic on any bit pattern
 // @bounds raw: all u64; cluster_bits: 9..=21 symbolic
@@ -53,6 +54,7 @@ fn c15_l2_compressed_range() {
 // @harness c15_l2_decode
 // @props C15 C01 C09 C14 C11
 // @tier quick
+// @cost 14
 // @timeout 300
 // @desc L2Entry::into_mapping on the geometry the real Qcow2Info::new derives: for every spec-valid entry the cluster kind, host offset, compressed length and COPIED flag equal the spec model; an unallocated entry is Backing (pointing at the guest cluster offset itself) iff the image has a backing file; never panics on ANY 64-bit entry
 // @bounds raw: all u64; guest offset: all u64; cluster_bits 9..=21, refcount_order 0..=6, block/slice bits symbolic; has-backing symbolic
@@ -118,6 +120,7 @@ fn c15_l2_decode() {
 // @harness c15_l2_roundtrip
 // @props C15
 // @tier quick
+// @cost 13
 // @timeout 300
 // @desc for every L2 entry value the specification permits, L2Entry::from_mapping(into_mapping(e)) == e bit for bit, and neither direction panics (incl. the debug assertions and the assert on the compressed length)
 // @bounds raw: all spec-valid u64; cluster_bits 9..=21; has-backing symbolic; guest offset < 2^56
@@ -151,6 +154,7 @@ fn c15_l2_roundtrip() {
 // @harness c14_l2_validator
 // @props C14 C15
 // @tier quick
+// @cost 9
 // @timeout 300
 // @desc L2Entry::try_from_plain: every spec-valid entry is accepted, every accepted standard entry has its reserved bits clear and a cluster-aligned host offset, into_plain returns the same bits
 // @bounds raw: all u64; geometry symbolic
@@ -184,6 +188,7 @@ fn c14_l2_validator() {
 // @harness c03_l2_map_cluster
 // @props C03 C15 C01
 // @tier quick
+// @cost 8
 // @timeout 300
 // @desc L2Table::map_cluster on an 8-entry slice with arbitrary content: the addressed entry becomes exactly COPIED|host (reserved bits clear, zero flag clear, decodes to a writable data cluster at `host`), every other entry is untouched, entries are stored big-endian at byte 8*i
 // @bounds slice: 8 entries, arbitrary content; index 0..8; host: any cluster-aligned offset < 2^56; cluster_bits 9..=21
@@ -234,6 +239,7 @@ fn c03_l2_map_cluster() {
 // @harness c15_l2_table_be
 // @props C15
 // @tier quick
+// @cost 12
 // @timeout 300
 // @desc Table::{get,set} of L2Table: set writes the big-endian bytes of the value at byte offset 8*i and nothing else, get reads them back, get beyond the table returns 0, entries() == bytes/8
 // @bounds 8-entry table, arbitrary content, all indices, all values
